@@ -26,6 +26,10 @@ typedef struct {
     long long          first_case;
     char               desc[600];
     int                skipped; // ISA not supported by the host
+    // differences that are bit-level only (floating point +0 vs -0, numerically equal): reported under their own key
+    unsigned long long soft;
+    long long          soft_first_case;
+    char               soft_desc[600];
 } VarRes;
 
 typedef struct Run {
@@ -103,6 +107,15 @@ static inline long kc_diff(const void *a, const void *b, size_t n) {
             snprintf(vr_->desc, sizeof vr_->desc, __VA_ARGS__);                                       \
         }                                                                                             \
         if ((r)->verbose) { printf("MISMATCH %s: ", (r)->k->v[vi].name); printf(__VA_ARGS__); printf("\n"); } \
+    } while (0)
+#define SOFTDIFF(r, vi, ...)                                                                          \
+    do {                                                                                              \
+        VarRes *vr_ = &(r)->var[vi];                                                                  \
+        if (vr_->soft++ == 0) {                                                                       \
+            vr_->soft_first_case = (r)->case_idx - 1;                                                 \
+            snprintf(vr_->soft_desc, sizeof vr_->soft_desc, __VA_ARGS__);                             \
+        }                                                                                             \
+        if ((r)->verbose) { printf("SIGN-OF-ZERO-ONLY %s: ", (r)->k->v[vi].name); printf(__VA_ARGS__); printf("\n"); } \
     } while (0)
 #define VERBOSE(r, ...) do { if ((r)->verbose) { printf(__VA_ARGS__); printf("\n"); } } while (0)
 
